@@ -35,12 +35,21 @@ class C07(C06):
         out = []
         r = rng.fork('C07')
         n = 0
-        alpha = ['a', 'a', 'a', 'b', 'c', 'comma', 'comma', 'comma', 'sp', 'bang']
+        alpha = ['a', 'a', 'a', 'b', 'c', 'comma', 'comma', 'comma', 'sp', 'bang', 'semi', 'semi']
         for i in range(3000 if tier == 'quick' else 40000):
             g = gen_rep(r, 1 + r.below(4))
-            k = r.below(4)
+            k = r.below(6)
             if k == 0: g = ['both', g, parsegen.gen_c06(r, 2)]
             elif k == 1: g = ['both', ['maybe', ['one', 'B']], g]
+            elif k in (4, 5):
+                # the same repetition object re-invoked after an invocation that failed part-way:
+                # a repetition with low >= 1 under an alternative inside an enclosing repetition
+                g = list(g)
+                if g[1] == 0:
+                    g[1] = 1 + r.below(2)
+                    if g[2] != 'inf' and g[2] < g[1]:
+                        g[2] = g[1]
+                g = ['repeat', 0, 'inf', ['either', ['left', g, ['one', 'Semi']], ['any', 'A', 'B', 'C', 'Comma', 'Semi']]]
             t = spangen.random_text(r, alpha, 14 if tier == 'quick' else 30)
             n += 1
             out.append(parsegen.parse_case('c%d' % n, t, g, flt=r.choice([['drop', 'Ws'], ['drop', 'Ws'], 'none']), sink=r.below(2)))
